@@ -14,7 +14,7 @@ RULE = ("programs: construct table + every combination of parameter kinds (def a
         "normalised AST.")
 TIMEOUTS = {"quick": (30, 300), "thorough": (60, 2400)}
 MIN = {"quick": {"cases": 14, "nontrivial": 1500, "observed": {"programs": 2500, "expression_embeddings": 800, "run_code_captures": 1500}},
-       "thorough": {"cases": 14, "nontrivial": 6000, "observed": {"programs": 9000}}}
+       "thorough": {"cases": 14, "nontrivial": 6000, "observed": {"programs": 5000}}}
 ASSUMPTIONS = ["CPython's ast module is the reference parser; ast.unparse round trip is the normal form",
                "normalisations: f-string without replacement field == the constant; redundant parentheses (absent from the AST anyway)"]
 CAPTURED = []
@@ -283,7 +283,7 @@ def run_case(c):
             stats["no_capture"] += 1
             return
         stats["run_code_captures"] += 1
-        got = CAPTURED[-1]
+        got = CAPTURED[0]      # the first code this Fandango() call ran is the spec's own (a program may itself construct nested specs)
         try:
             gotd = norm_dump(got)
         except SyntaxError as e:
